@@ -14,7 +14,7 @@ Definition ent_lst (st : state) (en : entry) : Prop :=
 
 Definition thr_lst (st : state) (th : thread) : Prop :=
   (forall v s, tout th = OVal v s -> (0 <= s)%Z) /\
-  (forall g s v, tpc th = PAdd g s v -> s = 0%Z \/ lst_or_stale st g).
+  (forall g s v, tpc th = PAdd g s v -> s = 0%Z).
 
 Record inv_lst (st : state) : Prop := {
   il_nodup : NoDup (listed st);
@@ -54,7 +54,7 @@ Proof.
   - intros t th' H1. destruct (Ht t th' H1) as [(th & A & O' & P)|D]; auto.
     destruct (T t th A) as [T1 T2]. split.
     + intros v s Hv. rewrite O' in Hv. eauto.
-    + intros g s v Hp. destruct (T2 g s v (P g s v Hp)); auto.
+    + intros g s v Hp. apply (T2 g s v (P g s v Hp)).
 Qed.
 
 Lemma keep_ent st es' : (forall e en', nth_error es' e = Some en' -> eattached en' = true ->
@@ -122,10 +122,10 @@ Proof.
   pose proof (il_cur st L c ca Hin Hc) as E. split; auto. rewrite E. apply lastgen_listed; auto.
 Qed.
 
-Lemma step_thread_lst var st t st' : v_recover_own var = true -> v_save_rehome var = true ->
+Lemma step_thread_lst var st t st' : v_recover_own var = true -> v_save_rehome var = true -> v_add_locked var = true ->
   step_thread var st t = Some st' -> inv_managed st -> inv_coh st -> inv_acc st -> inv_lst st -> inv_lst st'.
 Proof.
-  unfold step_thread. intros Vown Vre H M IC IA L. rewrite Vown, Vre in H.
+  unfold step_thread. intros Vown Vre Vadd H M IC IA L. rewrite Vown, Vre, Vadd in H.
   destruct (nth_error (threads st) t) as [th|] eqn:Hth; [|discriminate].
   pose proof (ic_thr st IC t th Hth) as Tc. unfold thread_ok in Tc.
   pose proof (il_thr st L t th Hth) as [Tout Tp].
@@ -186,8 +186,8 @@ Proof.
         rewrite Hc in E2. unfold is_released in E2. rewrite Hca in E2.
         apply (managed_cur st _ ca M L Hca E2). }
       apply (inv_lst_frame st); simpl; auto using incl_refl.
-      * destruct (v_add_locked var); rewrite ?gadd_length; auto.
-      * intros g. destruct (v_add_locked var); rewrite ?gst_gadd; auto.
+      * rewrite ?gadd_length; auto.
+      * intros g. rewrite ?gst_gadd; auto.
       * intros e en' A B. rewrite nth_error_upd in A. destruct (Nat.eqb_spec i e).
         -- subst e. rewrite Hen in A. simpl in A. inversion A; subst en'. simpl in B. right.
            destruct (il_ent st L i en Hen B) as (E1 & E2 & E3 & E4).
@@ -196,9 +196,7 @@ Proof.
       * intros t' th' A. unfold set_pc in A. rewrite nth_error_upd in A. destruct (Nat.eqb_spec t t').
         -- subst t'. rewrite Hth in A. simpl in A. inversion A; subst th'. right. split; simpl.
            ++ intros v0 s0 E0. apply (Tout v0 s0). congruence.
-           ++ intros g0 s0 v0 E0. inversion E0; subst.
-              destruct (v_add_locked var); [left; auto|].
-              destruct (Z.eq_dec size 0); [left; auto|right; left; simpl; apply Hlisted; auto].
+           ++ intros g0 s0 v0 E0. inversion E0; subst. auto.
         -- left. exists th'. auto.
     + inversion H; subst st'; clear H. unfold recover_entries.
       apply (inv_lst_frame st); simpl; auto using incl_refl.
@@ -284,6 +282,199 @@ Proof.
     simpl in Hc. rewrite (memb_In _ _ Hin) in Hc. inversion Hc; subst. auto.
   - intros e en He A. destruct (E e en He A) as (E1 & E2 & E3 & E4). unfold ent_lst.
     rewrite is_released_rotate, rotate_caches_length. repeat split; auto.
-  - intros t th Ht. destruct (T t th Ht) as [T1 T2]. split; auto.
-    intros g s v Hp. destruct (T2 g s v Hp); auto.
+Qed.
+
+(* markStale's elementary move: pop the oldest listed generation (not the last one) and mark it stale *)
+Lemma inv_lst_pop st g r :
+  listed st = g :: r -> r <> [] -> inv_lst st -> inv_lst (set_gens (set_listed st r) (gmark g (gens st))).
+Proof.
+  intros Hl Hr [N O L C E T Z]. rewrite Hl in *.
+  inversion N as [|? ? Hnotin Nr]; subst.
+  assert (Hg : g < length (gens st)) by (apply (O g); left; auto).
+  assert (LS : forall x, lst_or_stale st x -> lst_or_stale (set_gens (set_listed st r) (gmark g (gens st))) x).
+  { intros x [A|B]; simpl.
+    - rewrite Hl in A. destruct A as [<-|A]; [right; simpl; apply gst_gmark_same; auto|left; auto].
+    - right. simpl. apply gst_gmark_mono; auto. }
+  split; simpl; auto.
+  - intros x Hx. unfold gmark. rewrite upd_length. destruct (O x (or_intror Hx)). split; auto.
+    fold (gmark g (gens st)). rewrite gst_gmark_other; auto. intros ->. auto.
+  - destruct L as [l0 L]. destruct l0 as [|a l0]; simpl in L.
+    + inversion L; subst. contradiction.
+    + inversion L; subst. exists l0. auto.
+  - intros e en He A. destruct (E e en He A) as (E1 & E2 & E3 & E4). unfold ent_lst. simpl. repeat split; auto.
+Qed.
+
+Lemma ms_loop_lst : forall l st bytes need n, listed st = l -> inv_lst st ->
+  inv_lst (set_gens (set_listed st (fst (fst (fst (ms_loop l bytes need (gens st) n)))))
+                    (snd (fst (ms_loop l bytes need (gens st) n)))).
+Proof.
+  induction l as [|g l IH]; intros st bytes need n Hl I; simpl.
+  - apply (inv_lst_frame st); simpl; auto using incl_refl.
+    + intros e en' A B. left. apply same_ent; auto.
+    + intros t th' A. left. apply same_thr; auto.
+  - destruct l as [|g2 l2].
+    + simpl. apply (inv_lst_frame st); simpl; auto using incl_refl.
+      * intros e en' A B. left. apply same_ent; auto.
+      * intros t th' A. left. apply same_thr; auto.
+    + destruct (bytes <? need)%Z.
+      * pose proof (inv_lst_pop st g (g2 :: l2) Hl ltac:(discriminate) I) as I1.
+        specialize (IH (set_gens (set_listed st (g2 :: l2)) (gmark g (gens st))) (bytes + gsz g (gens st))%Z need (S n) eq_refl I1).
+        exact IH.
+      * simpl. apply (inv_lst_frame st); simpl; auto using incl_refl.
+        -- intros e en' A B. left. apply same_ent; auto.
+        -- intros t th' A. left. apply same_thr; auto.
+Qed.
+
+Lemma mark_stale_lst need st : inv_lst st -> inv_lst (fst (mark_stale need st)).
+Proof.
+  intros I. unfold mark_stale.
+  pose proof (ms_loop_lst (listed st) st 0%Z need 0 eq_refl I) as I1.
+  destruct (ms_loop (listed st) 0 need (gens st) 0) as [[[l bytes] gs] n]. simpl in I1. cbv zeta.
+  set (st1 := set_gens (set_listed st l) gs) in *.
+  destruct (Z.ltb bytes need); [|exact I1].
+  pose proof (inv_lst_rotate st1 I1) as I2.
+  assert (Hl2 : exists g r, listed (rotate st1) = g :: r /\ r <> []).
+  { destruct (il_last st1 I1) as [l0 E]. unfold rotate. simpl. simpl in E. rewrite E.
+    destruct l0 as [|a l0]; simpl.
+    - eexists. eexists. split; [reflexivity|discriminate].
+    - eexists. eexists. split; [reflexivity|]. destruct l0; discriminate. }
+  destruct Hl2 as (g & r & E & Hr).
+  set (st2 := rotate st1) in *. clearbody st2. rewrite E. simpl.
+  apply inv_lst_pop; auto.
+Qed.
+
+(* ---------------------------------------------------------------- all steps *)
+Definition label_ok (l : label) : Prop :=
+  match l with LSpawn _ _ (OVal _ s) => (0 <= s)%Z | _ => True end.
+
+Lemma zsum_nonneg_zero {A} (f : A -> Z) : forall l, (forall x, In x l -> (0 <= f x)%Z) -> zsum (map f l) = 0%Z ->
+  forall x, In x l -> f x = 0%Z.
+Proof.
+  induction l; simpl; intros Hn Hz x Hx; [tauto|].
+  assert (0 <= f a)%Z by auto. assert (0 <= zsum (map f l))%Z.
+  { clear - Hn. induction l; simpl; [lia|]. assert (0 <= f a0)%Z by (apply Hn; simpl; auto).
+    assert (0 <= zsum (map f l))%Z by (apply IHl; intros; apply Hn; simpl in *; tauto). lia. }
+  destruct Hx as [<-|Hx]; [lia|]. apply IHl; auto. lia.
+Qed.
+
+Lemma pend_sum_zero g ths : (forall th, In th ths -> forall g' s v, tpc th = PAdd g' s v -> s = 0%Z) -> pend_sum g ths = 0%Z.
+Proof.
+  unfold pend_sum. induction ths; simpl; intros H; auto.
+  rewrite IHths by (intros; eapply H; simpl; eauto).
+  unfold pend_term. destruct (tpc a) eqn:P; auto. rewrite (H a (or_introl eq_refl) _ _ _ P). destruct (Nat.eqb g0 g); auto.
+Qed.
+
+Lemma nodup_filter_snoc (f : nat -> bool) l0 x : NoDup (l0 ++ [x]) -> NoDup (filter f l0 ++ [x]).
+Proof.
+  intros N. pose proof (NoDup_remove_1 l0 [] x N) as N1. pose proof (NoDup_remove_2 l0 [] x N) as N2.
+  rewrite app_nil_r in N1, N2. apply nodup_snoc.
+  - apply NoDup_filter. auto.
+  - intros Hin. apply filter_In in Hin. tauto.
+Qed.
+
+Lemma gc_gens_lst st : inv_acc st -> inv_lst st -> inv_lst (gc_gens st).
+Proof.
+  intros IA I. pose proof I as [N O L C E T Z]. destruct L as [l0 L].
+  unfold gc_gens. rewrite L. rewrite removelast_last, last_last.
+  set (f := fun g => negb (gsz g (gens st) =? 0)%Z) in *.
+  assert (LS : forall g, lst_or_stale st g -> (In g l0 -> f g = true) ->
+            lst_or_stale (set_ret (set_listed st (filter f l0 ++ [lastgen st])) [Z.of_nat (length (l0 ++ [lastgen st]) - length (filter f l0 ++ [lastgen st]))]) g).
+  { intros g [A|B] Hf; [|right; auto]. left. simpl. rewrite L in A. apply in_app_or in A. apply in_or_app.
+    destruct A as [A|A]; auto. left. apply filter_In. auto. }
+  split; simpl; auto.
+  - rewrite L in N. apply nodup_filter_snoc; auto.
+  - intros g Hg. apply O. rewrite L. apply in_app_or in Hg. apply in_or_app. destruct Hg as [Hg|Hg]; auto.
+    apply filter_In in Hg. tauto.
+  - eexists. reflexivity.
+  - intros e en He A. destruct (E e en He A) as (E1 & E2 & E3 & E4). unfold ent_lst. simpl. repeat split; auto.
+    intros Hnz. apply LS; auto. intros Hin. destruct (f (egen en)) eqn:Hf; auto. exfalso.
+    (* the generation would be dropped: its counter is 0 and nothing is pending, so its attached entries are empty *)
+    assert (Hg : egen en < length (gens st) /\ gst (egen en) (gens st) = false).
+    { apply O. rewrite L. apply in_or_app. auto. }
+    pose proof (ia_acc st IA (egen en) (proj1 Hg) (proj2 Hg)) as Acc.
+    rewrite (pend_sum_zero (egen en) (threads st)) in Acc.
+    2:{ intros th Hth g' s v Hp. apply In_nth_error in Hth. destruct Hth as [t Ht]. apply (proj2 (T t th Ht) g' s v Hp). }
+    unfold f in Hf. apply negb_false_iff in Hf. apply Z.eqb_eq in Hf. rewrite Hf in Acc.
+    assert (att_term (egen en) en = 0%Z).
+    { apply (zsum_nonneg_zero (att_term (egen en)) (entries st)).
+      - intros x Hx. unfold att_term. destruct (eattached x) eqn:Ax; simpl; [|lia].
+        destruct (Nat.eqb (egen x) (egen en)); [|lia].
+        apply In_nth_error in Hx. destruct Hx as [k Hk]. apply (E k x Hk Ax).
+      - unfold att_sum in Acc. lia.
+      - eapply nth_error_In; eauto. }
+    unfold att_term in H. rewrite A, Nat.eqb_refl in H. simpl in H. auto.
+Qed.
+
+Lemma step_lst st l st' : step st l = Some st' -> racy st l = false -> label_ok l ->
+  inv_managed st -> inv_coh st -> inv_acc st -> inv_lst st -> inv_lst st'.
+Proof.
+  intros H R LO M IC IA I. destruct l; simpl in H.
+  - (* Spawn *) inversion H; subst st'; clear H.
+    apply (inv_lst_frame st); simpl; auto using incl_refl.
+    + intros e en' A B. left. apply same_ent; auto.
+    + intros t th' A. destruct (Nat.lt_ge_cases t (length (threads st))).
+      * rewrite nth_error_app1 in A; auto. left. exists th'. auto.
+      * rewrite nth_error_app2 in A; auto. destruct (t - length (threads st)); simpl in A; [|destruct n; discriminate].
+        inversion A; subst. right. split; simpl.
+        -- intros v s E. subst o. simpl in LO. auto.
+        -- intros; discriminate.
+  - eapply (step_thread_lst repaired); eauto.
+  - (* NewCache *) inversion H; subst st'; clear H. pose proof I as [N O L C E T Z]. unfold new_cache.
+    split; simpl; auto.
+    + intros c ca Hin Hc. apply in_app_or in Hin. destruct Hin as [Hin|[<-|[]]].
+      * pose proof (im_dom st M c Hin). rewrite nth_error_app1 in Hc; eauto.
+      * rewrite nth_error_app2, Nat.sub_diag in Hc; auto. inversion Hc; subst. auto.
+    + intros e en He A. destruct (E e en He A) as (E1 & E2 & E3 & E4). unfold ent_lst. simpl.
+      rewrite is_released_app, app_length; auto. repeat split; auto. lia.
+  - (* Release *) destruct (Nat.ltb c (length (caches st))); [|discriminate]. inversion H; subst st'; clear H.
+    pose proof I as [N O L C E T Z].
+    destruct (release_sub_spec c (entries st) (gens st)) as [Len S].
+    { intros e He. apply In_nth_error in He. destruct He as [n He]. apply (ia_ent st IA n e He). }
+    assert (LS : forall g, lst_or_stale st g -> lst_or_stale (release c st) g).
+    { intros g [A|B]; [left; auto|right; simpl]. destruct (S g) as [S1 _]. rewrite S1. auto. }
+    unfold release in *. split; simpl; rewrite ?Len; auto.
+    + intros g Hg. destruct (S g) as [S1 _]. rewrite S1. auto.
+    + intros c0 ca Hin Hc. rewrite nth_error_upd in Hc. destruct (Nat.eqb c c0); eauto.
+      destruct (nth_error (caches st) c0) eqn:E0; [|discriminate]. simpl in Hc. inversion Hc; subst. simpl. eauto.
+    + intros e en' He A. rewrite nth_error_map in He. destruct (nth_error (entries st) e) as [en|] eqn:E0; [|discriminate].
+      simpl in He. inversion He; subst. destruct (in_cache c en) eqn:Hin; [simpl in A; discriminate|].
+      destruct (E e en E0 A) as (E1 & E2 & E3 & E4). unfold ent_lst. simpl.
+      rewrite is_released_upd, upd_length. unfold in_cache in Hin. rewrite A in Hin. simpl in Hin.
+      rewrite Nat.eqb_sym in Hin. rewrite Hin. repeat split; auto.
+  - (* Rotate *) inversion H; subst st'; clear H. unfold do_rotate. destruct (_ || _).
+    + apply (inv_lst_frame st); simpl; auto using incl_refl.
+      * intros e en' A B. left. apply same_ent; auto.
+      * intros t th' A. left. apply same_thr; auto.
+    + apply (inv_lst_frame (rotate st)); simpl; auto using incl_refl, inv_lst_rotate.
+      * intros e en' A B. left. exists en'. auto.
+      * intros t th' A. left. exists th'. auto.
+  - (* CleanBegin *) inversion H; subst st'; clear H. unfold clean_begin.
+    assert (Same : forall r, inv_lst (set_ret st r)).
+    { intros r. apply (inv_lst_frame st); simpl; auto using incl_refl.
+      - intros e en' A B. left. apply same_ent; auto.
+      - intros t th' A. left. apply same_thr; auto. }
+    destruct (limit st =? 0)%Z; auto. destruct (acct st <=? limit st)%Z; auto.
+    pose proof (mark_stale_lst (Z.max (acct st / 20) (acct st - limit st)) st I) as I1.
+    destruct (mark_stale _ st) as [st1 n]. simpl in I1.
+    apply (inv_lst_frame st1); simpl; auto using incl_refl.
+    + intros e en' A B. left. exists en'. auto.
+    + intros t th' A. left. exists th'. auto.
+  - (* CleanCache *) inversion H; subst st'; clear H.
+    apply (inv_lst_frame st); simpl; auto using incl_refl.
+    + intros e en' A B. left. apply (map_ent_shrink (entries st) (fun e0 => if stale_in c (gens st) e0 then delete_stale e0 else e0)); auto.
+      intros en. destruct (stale_in c (gens st) en); simpl; auto. repeat split; auto. discriminate.
+    + intros t th' A. left. apply same_thr; auto.
+  - (* GcGens *) inversion H; subst st'; clear H. apply gc_gens_lst; auto.
+  - (* RelCollect *) inversion H; subst st'; clear H. unfold rel_collect.
+    destruct (released_idx _ _ _); (apply (inv_lst_frame st); simpl; auto using incl_refl;
+      [intros e en' A B; left; apply same_ent; auto | intros t th' A; left; apply same_thr; auto]).
+  - (* RelRemove *) unfold rel_remove in H. destruct (pendrel st) as [td|] eqn:Ep; [|discriminate].
+    inversion H; subst st'; clear H.
+    destruct (im_pend st M td Ep) as [Asc F].
+    destruct (release_buckets_perm td (buckets st) Asc) as (picked & _ & _ & Perm).
+    { intros i Hi. destruct (F i Hi) as (c & Ec & _). apply nth_error_Some. congruence. }
+    apply (inv_lst_frame st); simpl; auto.
+    + intros c Hc. eapply Permutation_in; [exact Perm|]. apply in_or_app; auto.
+    + intros e en' A B. left. apply same_ent; auto.
+    + intros t th' A. left. apply same_thr; auto.
 Qed.
